@@ -302,6 +302,9 @@ def _catalogue():
     # D27 a task with one non-publishing transition into a join and a sibling task; an ancestor published
     add("D27", {"s": T([("any", ["p"], ["l", "r"])]), "l": T([("any", [], ["j", "n"])]), "r": T([("any", ["q"], ["j"])]),
                 "j": T(join="all"), "n": T([("any", [], ["n2"])]), "n2": T()}, vars={"x": "init"}, output=["x", "p"])
+    # D28 a task with a retry policy reached by two branches inside a loop (all arrivals share the route)
+    add("D28", {"init": T([("ok", [], ["start"])]), "start": T([("any", [], ["a", "b"])]), "a": T([("ok", [], ["x"])]), "b": T([("ok", [], ["x"])]),
+                "x": T([("c0", [], ["start"]), ("fail", [], ["noop"])], retry={"count": 1, "delay": 5}, delay=2)})
     # D06p split routes with publishes
     add("D06p", {"s": T([("any", ["x"], ["a", "b"])]), "a": T([("any", ["y"], ["m"])]),
                  "b": T([("any", ["x"], ["m"])]), "m": T([("any", ["w"], ["n"])]), "n": T()},
